@@ -1143,6 +1143,8 @@ class Evaluator:
             r = h(self.ex, self.st, o, n.attr, n, self)
             if r is not NotImplemented:
                 return r
+        if isinstance(o, Prod) and n.attr == "astype":
+            return Method(o, "astype")
         raise Outside(f"attribute .{n.attr} of {type(o).__name__}")
 
     # -- operators -------------------------------------------------------------------------
@@ -1317,6 +1319,9 @@ class Evaluator:
             return simp(to_real(za) / to_real(zb))
         if isinstance(op, (ast.FloorDiv, ast.Mod)):
             if real:
+                # float // positive-literal : the floor of the quotient, as a float (Python's float floor division)
+                if isinstance(op, ast.FloorDiv) and concrete(b) and b > 0:
+                    return simp(z3.ToReal(z3.ToInt(to_real(za) / to_real(zb))))
                 raise Outside("floor division of reals")
             return self.floordivmod(op, za, zb, n)
         if isinstance(op, ast.Pow):
@@ -1713,6 +1718,9 @@ def Executor_call_method(self, m, st, args, kwargs, node, ev):
         if m.name == "conj":
             return o.with_(conj=not o.conj)
         raise Outside(f"array method {m.name}")
+    if isinstance(o, Prod) and m.name == "astype":
+        # a cast of an element-wise product: the values are unchanged (floats are reals, A-REAL); only its dtype tag would change
+        return o
     if isinstance(o, Opaque):
         h = self.contract.handlers.get("opaque." + m.name)
         if h:
